@@ -1995,7 +1995,7 @@ Proof. intros A l r i x H. rewrite nth_error_app1; auto. apply nth_error_Some. c
 Lemma impl_def : forall f ps body rest, Impl rest -> Impl (QDef f ps body rest).
 Proof.
   intros f ps body rest IHr. impl_intro.
-  destruct (comp_def_inv _ _ _ _ _ _ _ _ _ _ _ _ Hc) as (Hlt & Hce & Hpv & cb & nvb & s1 & cr & Eb & Er & ->). cbv zeta in Eb, Er. clear Hc.
+  destruct (comp_def_inv _ _ _ _ _ _ _ _ _ _ _ _ Hc) as (Hlt & Hce & cb & nvb & s1 & cr & Eb & Er & ->). cbv zeta in Eb, Er. clear Hc.
   set (pre := prelude sn ps) in *.
   set (l := pc + 2 + length pre + length cb + 1) in *.
   uncons Hat A0. uncons Hat A1.
@@ -2018,7 +2018,7 @@ Proof.
             (IHr sc cur base Hfr (add_fun ce f (S pc) (length ps)) l nv s1 cr nv' sn' Er Hatr ((f, BF ps body) :: rho) v st fk vs n n0 o ko g K K0 P _ Hn Hko Hoo Hlen HK1 _ HK0 _ HP)).
   - intros s0. apply Tend_sub; auto.
   - apply envOK_add_fun; [exact HE|].
-    exists sn, nvb, cb, (S sn), s1. split; [exact A1|]. split; [|split; [exact Hatf|split; [apply ce_lt_fun; exact Hce|exact Hpv]]].
+    exists sn, nvb, cb, (S sn), s1. split; [exact A1|]. split; [|split; [exact Hatf|apply ce_lt_fun; exact Hce]].
     intros G. fold pre. replace (S pc + 1 + length pre) with (pc + 2 + length pre) by lia.
     rewrite <- Eb. apply comp_ghost; reflexivity.
   - intros i Hi. apply HK2. eapply kept_add_fun; eauto.
@@ -2087,21 +2087,13 @@ Proof.
         -- intros k Hk. rewrite HB2 by lia. apply UO. lia.
 Qed.
 
-Lemma no_pv_params : forall ps i, no_pv ps = true -> pv_params ps i = [].
-Proof.
-  induction ps as [|[g|x] r IH]; intros i H; simpl in *; auto. discriminate.
-Qed.
-Lemma pf_env_len : forall sn ps i, no_pv ps = true -> length (pf_env sn ps i) = length ps.
-Proof.
-  induction ps as [|[g|x] r IH]; intros i H; simpl in *; auto; [|discriminate]. rewrite app_length, IH by auto. simpl. lia.
-Qed.
 
 (* the environment of the parameters: closures of the arguments, whose own environment is the caller's *)
 Lemma envOKl_params : forall G sc' vs lim sc cur base cel rho lim_a idf o,
   top_frame sc cur base -> frameOK sc' idf o -> lim_a <= lim ->
   envOKl code (ce_ghost {| ce_env := cel; ce_lbls := []; ce_ghost := G |}) sc vs lim_a cel rho ->
   (forall i, kept sc {| ce_env := cel; ce_lbls := []; ce_ghost := G |} i -> G i /\ i < lim_a) ->
-  forall ps args pcs i cr rr, no_pv ps = true -> length ps = length args ->
+  forall ps args pcs i cr rr, length ps = length args ->
   Forall2 (fun a q => funOK code (S q) [] a cel) args pcs ->
   (forall k q, nth_error pcs k = Some q -> nth_error vs (o + S (i + k)) = Some (SPc (S q) sc)) ->
   o + S (i + length ps) <= lim ->
@@ -2110,7 +2102,7 @@ Lemma envOKl_params : forall G sc' vs lim sc cur base cel rho lim_a idf o,
 Proof.
   intros G sc' vs lim sc cur base cel rho lim_a idf o Htop Hfr' Hla HEa Hka.
   pose proof (frameOK_cur _ _ _ Hfr') as Hcur'.
-  induction ps as [|[g|x] ps IH]; intros args pcs i cr rr Hpv Hlen HF Hnth Hlim Hr; simpl in *; try discriminate.
+  induction ps as [|[g|x] ps IH]; intros args pcs i cr rr Hlen HF Hnth Hlim Hr; simpl in *.
   - destruct args; [exact Hr|discriminate].
   - destruct args as [|a args]; [discriminate|]. inversion HF; subst. rename H1 into Hf.
     rewrite <- !app_assoc. simpl.
@@ -2120,13 +2112,11 @@ Proof.
     + apply (EO_par code G sc' vs lim g (idf, S i) a rho cr rr (o + S i) (S y) sc cel cur base lim_a G); auto.
       * lia.
       * replace (o + S i) with (o + S (i + 0)) by lia. apply Hnth. reflexivity.
-Qed.
-
-Lemma bindps_nopv : forall (ev : query -> result) (k : venv -> result) ps args env,
-  no_pv ps = true -> bindps ev k ps args env = k env.
-Proof.
-  induction ps as [|[g|x] ps IH]; intros args env H; simpl in *; [destruct args; reflexivity| |discriminate].
-  destruct args as [|a args]; [reflexivity|]. apply IH. exact H.
+  - (* a value parameter binds no closure name *)
+    destruct args as [|a args]; [discriminate|]. inversion HF; subst.
+    apply (IH args l' (S i)); auto.
+    + intros k q Hq. replace (S i + k) with (i + S k) by lia. apply Hnth. exact Hq.
+    + lia.
 Qed.
 
 Lemma envOKl_ghost : forall (G G' : nat -> Prop) sc vs lim cel rho, (forall i, G i -> G' i) ->
@@ -2162,20 +2152,22 @@ Proof.
   - destruct (proj2 (IH (S i) x y) H) as (j & -> & Hj). exists j. split; [auto|lia].
 Qed.
 
-Lemma prelude_at : forall idf p0 ps pp, no_pv (p0 :: ps) = true -> code_at pp (prelude idf (p0 :: ps)) ->
+Lemma prelude_at : forall idf p0 ps pp, code_at pp (prelude idf (p0 :: ps)) ->
   at_ pp (Istore (idf, 0)) /\ (forall i, i < S (length ps) -> at_ (S pp + i) (Istore (idf, 1 + i))) /\
-  at_ (S pp + S (length ps)) (Iload (idf, 0)) /\ length (prelude idf (p0 :: ps)) = S (S (S (length ps))).
+  code_at (S pp + S (length ps)) (pv_code idf (S (length ps)) (pv_params (p0 :: ps) 0) 0 ++ [Iload (idf, 0)]) /\
+  length (prelude idf (p0 :: ps)) = S (S (length ps)) + length (pv_code idf (S (length ps)) (pv_params (p0 :: ps) 0) 0) + 1.
 Proof.
-  intros idf p0 ps pp Hpv Hat. unfold prelude in *. rewrite (no_pv_params _ 0 Hpv) in *. simpl pv_code in *. simpl app at 2 in Hat.
+  intros idf p0 ps pp Hat. unfold prelude in *.
   set (n := length (p0 :: ps)) in *. assert (En : n = S (length ps)) by reflexivity.
-  uncons Hat A0. destruct (code_at_app _ _ _ _ Hat) as [Hm Hl]. rewrite map_length, seq_length in Hl. uncons Hl A1.
+  set (pvc := pv_code idf n (pv_params (p0 :: ps) 0) 0) in *.
+  uncons Hat A0. destruct (code_at_app _ _ _ _ Hat) as [Hm Hl]. rewrite map_length, seq_length in Hl.
   split; [exact A0|]. split; [|split].
   - intros i Hi. apply Hm. assert (Hs : forall k s j, j < k -> nth_error (List.seq s k) j = Some (s + j)).
     { induction k as [|k IH]; intros s j Hj; [lia|]. destruct j; simpl; [rewrite Nat.add_0_r; reflexivity|].
       rewrite IH by lia. f_equal. lia. }
     rewrite nth_error_map, (Hs n 0 i) by lia. reflexivity.
-  - rewrite <- En. exact A1.
-  - simpl. rewrite app_length, map_length, seq_length. simpl. lia.
+  - rewrite <- En. exact Hl.
+  - unfold pvc, n. cbn [length]. rewrite !app_length, map_length, seq_length. cbn [length]. lia.
 Qed.
 
 (* ---- value parameters: def f($x): ...  The prelude evaluates the closure of every $x parameter on the input of the
@@ -2190,6 +2182,10 @@ Lemma bindpv_ext : forall evi evi' k pvs env, (forall i x, In (i, x) pvs -> evi 
 Proof.
   induction pvs as [|[i x] r IH]; intros env H; simpl; [reflexivity|].
   rewrite (H i x (or_introl eq_refl)). apply bind_list_ext'. intros w. apply IH. intros i' x' Hin. apply (H i' x'). right. exact Hin.
+Qed.
+Lemma bindpv_extk : forall evi k k' pvs env, (forall e, k e = k' e) -> bindpv evi k pvs env = bindpv evi k' pvs env.
+Proof.
+  induction pvs as [|[i x] r IH]; intros env H; simpl; [apply H|]. apply bind_list_ext'. intros w. apply IH. exact H.
 Qed.
 Lemma pv_params_ge : forall ps i0 i x, In (i, x) (pv_params ps i0) -> i0 <= i < i0 + length ps.
 Proof.
@@ -2223,11 +2219,12 @@ Lemma pv_loop :
   let Gc := kept sc (fun_env ce) in
   (forall i, Gc i -> i < limc) ->
   forall args pcs nps, Forall2 (fun a q => funOK code (S q) [] a (ce_env ce)) args pcs -> Forall (fun a => Impl a) args -> length args = nps ->
-  forall m body ceF pcb pslots cb nvb s0 s1 st, Lemmas.Impl nt code m body ->
+  forall (z : bool) m body ceF pcb pslots cb nvb s0 s1 st, (z = false -> Lemmas.Impl nt code m body) ->
     comp body ceF idf pcb pslots s0 = Some (cb, nvb, s1) -> code_at pcb cb -> at_ (pcb + length cb) Iret ->
     ce_lbls ceF = [] -> ce_ghost ceF = Gc ->
   let evi := fun i => match nth_error args i with Some a => den a rho v | None => ([], None) end in
-  let k := fun env => den1 nt (call_of nt m) body env v in
+  (* z: the call itself is out of fuel (the value parameters are evaluated all the same) *)
+  let k := fun env => if z then ([], Some XFuel) else den1 nt (call_of nt m) body env v in
   forall pvs j ceJ rhoJ pcx cx (PT : list sv -> nat -> gx -> Prop) vs n oo g,
     ce_env ceF = pv_env idf nps pvs j ++ ce_env ceJ -> ce_lbls ceJ = [] -> ce_ghost ceJ = Gc ->
     o + S nps + j + length pvs = o + pslots ->
@@ -2248,12 +2245,13 @@ Lemma pv_loop :
     G cx (fst (bindpv evi k pvs rhoJ)) (Tend cx (snd (bindpv evi k pvs rhoJ)) PT) (N sc' pcx st (g_base cx) vs n oo g).
 Proof.
   intros sc cur base Hfr ce rho limc v n0 sc' idf o Hfr' Hps Hlimc Gc HGlt args pcs nps HFa IHargs Hnps
-         m body ceF pcb pslots cb nvb s0 s1 st IHb Hcomp Hatcb Aret HlF HgF evi k.
+         z m body ceF pcb pslots cb nvb s0 s1 st IHb Hcomp Hatcb Aret HlF HgF evi k.
   pose proof (frameOK_cur _ _ _ Hfr') as Hcur'.
   induction pvs as [|[i x] r IH]; intros j ceJ rhoJ pcx cx PT vs n oo g HeF HlJ HgJ Hsl Hidx Hat Hpcx HE Hv0 Hclos HEc
          Hsc Hpc Hst Hoff Hce Hn0 Hko Hkoo Hlen Hn Hct Hown Hown2 HKf HKg HKk HK0 PT1 PT2 HPT.
   - (* all value parameters are bound: load the input, run the body *)
-    simpl in Hat, Hpcx, HeF, Hsl. uncons Hat A0. cbn [bindpv].
+    simpl in Hat, Hpcx, HeF, Hsl. uncons Hat A0. cbn [bindpv]. unfold k. destruct z; [cbn [fst snd]; apply G_fuel|].
+    specialize (IHb eq_refl).
     eapply G_pre; [eapply steps_step; [eapply st_load; [exact A0|apply Hcur'|exact Hv0]|apply steps_refl]|apply chg_refl|cl|].
     replace (S pcx) with pcb by lia. rewrite <- Hst.
     apply (impl_body m body IHb sc' idf o Hfr' ceF pcb pslots s0 cb nvb s1 Hcomp Hatcb cx rhoJ v vs n oo g PT); auto; try lia.
@@ -2278,7 +2276,7 @@ Proof.
         inversion HFa; subst; inversion IHargs; subst; simpl in Eq.
       - inversion Ea; inversion Eq; subst. auto.
       - eapply IHa; eauto. }
-    destruct Hfa as [(ida & nva & cba & s0a & s1a & Hsca & Hcba & Hcodea & Hclta & _) IHa].
+    destruct Hfa as [(ida & nva & cba & s0a & s1a & Hsca & Hcba & Hcodea & Hclta) IHa].
     set (cea := {| ce_env := ce_env ce; ce_lbls := []; ce_ghost := Gc |}).
     assert (Hcba' : comp a cea ida (S (S q)) 0 s0a = Some (cba, nva, s1a)).
     { specialize (Hcba Gc). simpl in Hcba. replace (S (q + 1 + 0)) with (S (S q)) in Hcba by lia. exact Hcba. }
@@ -2416,18 +2414,15 @@ Qed.
 
 (* a call: of a user-defined function (opcall pc, with the closures of the arguments pushed before), or of a filter
    parameter (load the closure; callpc).  The callee runs with one unit of fuel less *)
-Lemma impl_callf : forall f args, Impl (QCallF f args).
+Lemma impl_callf : forall f args, Forall (fun a => Impl a) args -> Impl (QCallF f args).
 Proof.
-  intros f args. impl_intro. simpl in Hc.
+  intros f args IHargs. impl_intro. simpl in Hc.
   destruct (lookup_cf f (length args) (ce_env ce)) as [[y|p nf|y]|] eqn:Ef; try discriminate.
   - (* a defined function *)
     pose proof HE as (Hv & Hl & Hgh).
     destruct (envOKl_fun _ _ _ _ _ _ _ _ _ _ Hv Ef) as (ps & body & cel' & rho' & pre & _ & Hlps & Hlf &
-              (idf & nvb & cb & s0 & s1 & Hscp & Hcb & Hcode & Hclt & Hpv) & Hv' & Epre).
-    cbn [Den.den1]. rewrite Hlf. rewrite (bindps_nopv _ _ _ _ _ Hpv).
-    case_eq fu; [intros Efu|intros m Efu].
-    { (* no fuel: nothing is claimed *) cbn [call_of fst snd]. apply G_fuel. }
-    cbn [call_of]. assert (Hm : m < fu) by lia.
+              (idf & nvb & cb & s0 & s1 & Hscp & Hcb & Hcode & Hclt) & Hv' & Epre).
+    cbn [Den.den1]. rewrite Hlf.
     (* the callee's environment: its parameters, then the part of the caller's that starts at the function *)
     set (Gc := kept sc {| ce_env := ce_env ce; ce_lbls := []; ce_ghost := ce_ghost ce |}).
     set (ceF := {| ce_env := param_env idf ps ++ cel'; ce_lbls := []; ce_ghost := Gc |}).
@@ -2444,7 +2439,10 @@ Proof.
     assert (HGlt : forall i, Gc i -> i < base + nv) by (intros i Hi; eapply kept_lt; [exact HE|apply Hkc; exact Hi]).
     destruct args as [|a0 args'].
     + (* no argument: opcall pc *)
-      destruct ps as [|p0 ps']; [|discriminate Hlps].
+      destruct ps as [|p0 ps']; [|discriminate Hlps]. cbn [bindps].
+      case_eq fu; [intros Efu|intros m Efu].
+      { (* no fuel: nothing is claimed *) cbn [call_of fst snd]. apply G_fuel. }
+      cbn [call_of]. assert (Hm : m < fu) by lia.
       inversion Hc; subst cq nv' sn'. clear Hc. uncons Hat A1.
       assert (Epcb : pcb = S p) by (unfold pcb, pl; simpl; lia). rewrite Epcb in *. simpl in HcbF.
       eapply G_pre; [one st_callf; apply steps_refl|apply chg_refl|cl|].
@@ -2465,24 +2463,41 @@ Proof.
       * intros a b m0 x m' x' Hp C Hm0. eapply S1; [exact Hp| |exact Hm0]. eapply chg_mono; [|exact C]. simpl. intros; lia.
       * eapply S1; [exact HP|apply chg_refl|cl].
     + (* arguments: store v; the closures; load v; opcall pc *)
+      destruct ps as [|p0 ps']; [discriminate Hlps|].
+      (* the fuel of the call: none (z) or m for the body *)
+      assert (Hz : exists z m, (z = false -> Lemmas.Impl nt code m body) /\
+                 forall env, call_of nt fu body env v = if z then ([], Some XFuel) else den1 nt (call_of nt m) body env v).
+      { case_eq fu; [intros Efu; exists true, 0; split; [discriminate|reflexivity]|].
+        intros m Efu. exists false, m. split; [intros _; apply IHfu; lia|reflexivity]. }
+      destruct Hz as (z & m & IHb & Hkz).
+      set (nps := S (length ps')).
+      assert (Hnps : length (a0 :: args') = nps) by (unfold nps; simpl in *; lia).
+      set (evi := fun i => match nth_error (a0 :: args') i with Some a => den a rho v | None => ([], None) end).
+      set (kz := fun env => if z then ([], Some XFuel) else den1 nt (call_of nt m) body env v).
+      set (pvs := pv_params (p0 :: ps') 0).
+      set (rhoF := pf_binds (p0 :: ps') (a0 :: args') rho ++ rho').
+      assert (Eb : bindps (fun a => den a rho v) (fun env => call_of nt fu body env v) (p0 :: ps') (a0 :: args') rhoF
+                   = bindpv evi kz pvs rhoF).
+      { rewrite (bindps_pvs _ _ _ _ 0 _ Hlps). fold pvs. rewrite (bindpv_extk _ _ kz pvs rhoF Hkz).
+        apply bindpv_ext. intros i x _. rewrite Nat.sub_0_r. reflexivity. }
+      fold rhoF. rewrite Eb. clear Eb.
       destruct (Nat.ltb_spec cur sn) as [Hlt|]; [|discriminate]. destruct (ce_lt ce sn) eqn:Hce; [|discriminate]. cbn [andb] in Hc.
       match type of Hc with context [comp_args ?C ?l ?p ?s] => destruct (comp_args C l p s) as [[[cas pe] s2]|] eqn:Eas; [|discriminate] end.
       inversion Hc; subst cq nv' sn'. clear Hc.
       uncons Hat A0. destruct (code_at_app _ _ _ _ Hat) as [Hatas Hat4].
       assert (HCm : forall a s p0 cb0 nvc s3, comp a (fun_env ce) s (p0 + 2) 0 (S s) = Some (cb0, nvc, s3) -> s <= s3).
-      { intros a s p0 cb0 nvc s3 Hca. apply comp_mono in Hca. lia. }
+      { intros a s p1 cb0 nvc s3 Hca. apply comp_mono in Hca. lia. }
       destruct (args_run _ HCm _ _ _ _ _ _ Eas Hatas) as (pcs & Hpl & Epe & Hsn2 & Hst & HFa).
       assert (HFa' : Forall2 (fun a q => funOK code (S q) [] a (ce_env ce)) (a0 :: args') pcs).
       { clear - HFa Hce. induction HFa as [|a q la lq (id & cb0 & nvc & s3 & Hid & Hq & Hca & Hatq) HFr IHF]; constructor; [|exact IHF].
-        exists id, nvc, cb0, (S id), s3. cbn [prelude param_env pv_env pf_env pv_params param_slots length app]. split; [exact Hq|]. split; [|split; [|split; [|reflexivity]]].
+        exists id, nvc, cb0, (S id), s3. cbn [prelude param_env pv_env pf_env pv_params param_slots length app]. split; [exact Hq|]. split; [|split].
         - intros G. rewrite <- Hca. replace (S q + 1 + 0) with (q + 2) by lia. apply comp_ghost; reflexivity.
         - intros i x Hi. replace (S q + 1 + i) with (S (S q) + i) by lia. apply Hatq. exact Hi.
         - apply ce_lt_nolbl. eapply ce_lt_mono; [exact Hce|exact Hid]. }
       uncons Hat4 A1. uncons Hat4 A2.
       set (clos := map (fun q => SPc (S q) sc) pcs) in *.
-      assert (Hcl : length clos = length ps) by (unfold clos; rewrite map_length; simpl in Hpl, Hlps; lia).
-      destruct ps as [|p0 ps']; [discriminate Hlps|].
-      destruct (prelude_at idf p0 ps' (S p) Hpv Hatpl) as (P0 & Pst & Pld & Plen). fold pl in Plen.
+      assert (Hcl : length clos = nps) by (unfold clos; rewrite map_length; lia).
+      destruct (prelude_at idf p0 ps' (S p) Hatpl) as (P0 & Pst & Ppv & Plen). fold pl in Plen. fold nps pvs in Ppv, Plen.
       set (pcall := S (S pc + length cas)) in *.
       assert (Epc : pc + length (Istore (cur, nv) :: cas ++ [Iload (cur, nv); Icallf p]) = S pcall).
       { simpl. rewrite app_length. simpl. unfold pcall. lia. }
@@ -2495,7 +2510,6 @@ Proof.
         eapply steps_step; [eapply st_load; [exact A1|apply Hcur|exact UN]|]. one st_callf. apply steps_refl. }
       { eapply chg_update; [exact U|]. simpl. lia. }
       { unfold g'. cl. }
-      set (nvc := nvb).
       set (pr := pcb + length cb) in *.
       apply (G_enter sc cur base Hfr sc p idf nvb (length (p0 :: ps')) pr Hscp Aret c ceF P (SV v :: clos ++ st) vs1 n o g' pcall);
         try (simpl; auto; lia).
@@ -2508,44 +2522,44 @@ Proof.
       pose proof (frameOK_cur _ _ _ Hfr') as Hcur'.
       assert (Hps : pushed sc idf sc') by (exists o, pcall, (ctr g'), sc, sc; reflexivity).
       assert (Hl' : o + nvb <= length vs') by apply grow_len.
-      assert (Hslots : param_slots (p0 :: ps') = S (S (length ps'))).
-      { unfold param_slots. rewrite (no_pv_params _ 0 Hpv). simpl. lia. }
+      assert (Hslots : param_slots (p0 :: ps') = S nps + length pvs) by reflexivity.
       rewrite Hslots in *.
-      (* the prelude: store the input and the closures, load the input *)
+      (* the prelude: store the input and the closures *)
       destruct (update_some vs' (o + 0) (SV v)) as [vsA UA]; [lia|]. destruct (update_spec _ _ _ _ UA) as (UAL & UAN & UAO).
       destruct (stores_run sc' idf o Hfr' clos 1 (S (S p)) st fk vsA n (o + nvb) g1) as (vsB & StB & LB & HB1 & HB2).
-      { intros i Hi. apply Pst. simpl in Hcl. lia. }
-      { simpl in Hcl. lia. }
+      { intros i Hi. apply Pst. unfold nps in Hcl. lia. }
+      { lia. }
       assert (HvB : nth_error vsB (o + 0) = Some (SV v)) by (rewrite HB2 by lia; exact UAN).
       assert (Hagree : forall a, a < o -> nth_error vsB a = nth_error vs1 a).
       { intros a Ha. rewrite HB2 by lia. rewrite UAO by lia. unfold vs'. apply grow_nth. lia. }
       assert (Hagree0 : forall a, a < base + nv -> nth_error vsB a = nth_error vs a).
       { intros a Ha. rewrite Hagree by lia. apply UO. lia. }
-      assert (StP : steps (N sc' (S p) (SV v :: clos ++ st) fk vs' n (o + nvb) g1) (N sc' pcb (SV v :: st) fk vsB n (o + nvb) g1)).
-      { eapply steps_step; [eapply st_store; [exact P0|apply Hcur'|exact UA]|]. eapply steps_trans; [exact StB|].
-        replace (S (S p) + length clos) with (S (S p) + S (length ps')) by (simpl in Hcl; lia).
-        eapply steps_step; [eapply st_load; [exact Pld|apply Hcur'|exact HvB]|].
-        replace (S (S (S p) + S (length ps'))) with pcb by (unfold pcb; rewrite Plen; lia). apply steps_refl. }
+      set (pcx := S (S p) + nps).
+      assert (StP : steps (N sc' (S p) (SV v :: clos ++ st) fk vs' n (o + nvb) g1) (N sc' pcx st fk vsB n (o + nvb) g1)).
+      { eapply steps_step; [eapply st_store; [exact P0|apply Hcur'|exact UA]|].
+        replace pcx with (S (S p) + length clos) by (unfold pcx; lia). exact StB. }
       eapply G_pre; [exact StP| |cl|].
       { simpl. split; [lia|]. intros i Hi. rewrite HB2, UAO; auto; [lia| ].
         destruct (Nat.lt_ge_cases i (o + 1)); [left; lia|]. destruct (Nat.lt_ge_cases i (o + 1 + length clos)); [|right; lia].
-        exfalso. apply Hi. simpl in Hcl. lia. }
-      (* the body, in the environment of the parameters *)
-      set (rhoF := pf_binds (p0 :: ps') (a0 :: args') rho ++ rho').
-      assert (HEF : envOK sc' ceF rhoF vsB n0 (o + S (S (length ps')))).
+        exfalso. apply Hi. lia. }
+      (* the value parameters, then the body, in the environment of the parameters *)
+      set (ceJ := {| ce_env := pf_env idf (p0 :: ps') 0 ++ cel'; ce_lbls := []; ce_ghost := Gc |}).
+      assert (HEcB : envOKl code Gc sc vsB (base + nv) (ce_env ce) rho).
+      { eapply envOKl_same; [eapply envOKl_ghost; [|exact Hv]|..].
+        * intros i Hi. right. right. exact Hi.
+        * intros x y k Hin Hk. symmetry. apply Hagree0. exact (envOKl_kept_lt _ _ _ _ _ _ x y k Hv Hin Hk).
+        * intros k Hk. symmetry. apply Hagree0. apply HGlt. exact Hk. }
+      assert (HEJ : envOK sc' ceJ rhoF vsB n0 (o + S nps + 0)).
       { split; [|split].
-        - unfold ceF. cbn [ce_env ce_ghost]. unfold param_env. rewrite (no_pv_params _ 0 Hpv). cbn [pv_env app].
-          refine (envOKl_params Gc sc' vsB (o + S (S (length ps'))) sc cur base (ce_env ce) rho (base + nv) idf o Hfr Hfr' ltac:(lia) _ _
-                    (p0 :: ps') (a0 :: args') pcs 0 cel' rho' Hpv Hlps HFa' _ _ _).
-          + cbn [ce_ghost]. eapply envOKl_same; [eapply envOKl_ghost; [|exact Hv]|..].
-            * intros i Hi. right. right. exact Hi.
-            * intros x y k Hin Hk. symmetry. apply Hagree0. exact (envOKl_kept_lt _ _ _ _ _ _ x y k Hv Hin Hk).
-            * intros k Hk. symmetry. apply Hagree0. apply HGlt. exact Hk.
+        - unfold ceJ. cbn [ce_env ce_ghost].
+          refine (envOKl_params Gc sc' vsB (o + S nps + 0) sc cur base (ce_env ce) rho (base + nv) idf o Hfr Hfr' ltac:(lia) _ _
+                    (p0 :: ps') (a0 :: args') pcs 0 cel' rho' Hlps HFa' _ _ _).
+          + cbn [ce_ghost]. exact HEcB.
           + intros i Hi. split.
             * destruct Hi as [(x & y & Hx & Hi)|[(l0 & y & Hx & Hi)|Hg]]; simpl in *; [left; eauto|discriminate|exact Hg].
             * apply HGlt. destruct Hi as [(x & y & Hx & Hi)|[(l0 & y & Hx & Hi)|Hg]]; simpl in *; [left; eauto|discriminate|exact Hg].
           + intros k q Hq. replace (o + S (0 + k)) with (o + 1 + k) by lia. apply HB1. unfold clos. rewrite nth_error_map, Hq. reflexivity.
-          + simpl. lia.
+          + unfold nps. simpl. lia.
           + eapply envOKl_lim; [|instantiate (1 := base + nv); lia].
             eapply envOKl_pushed; [exact Hps| |eapply envOKl_ghost; [|exact Hv']|].
             * exact Hagree0.
@@ -2553,31 +2567,43 @@ Proof.
             * intros x y Hin. pose proof (ce_lt_var {| ce_env := cel'; ce_lbls := []; ce_ghost := fun _ => False |} idf x y Hclt Hin). lia.
         - simpl. intros l0 y0 Hy. discriminate.
         - simpl. intros i Hi. apply HGlt in Hi. lia. }
-      pose proof (IHfu m Hm body sc' idf o Hfr' ceF pcb (S (S (length ps'))) s0 cb nvb s1 HcbF Hatcb rhoF v st fk vsB n n0 (o + nvb) (o + nvb) g1
-                    K' K0 P HEF Hn (le_n _) (le_n _) ltac:(lia)) as HB. cbv zeta in HB.
-      refine (G_sub nt code (ctx_of sc' (pcb + length cb) st fk (o + S (S (length ps'))) (o + nvb) (o + nvb) (o + nvb) K' K0 ceF n0 (ctr g1))
-                (ctx_of sc' pr st fk (o + 0) (o + nvb) (o + nvb) (o + nvb) K' K0 ceF n0 (ctr g1)) _ _
-                eq_refl eq_refl eq_refl eq_refl _ (fun _ _ _ H => H) (fun _ _ H => H) (le_n _) (le_n _) (le_n _) _ _ _ (HB _ _ _ _ _)).
-      { simpl. intros; lia. }
-      { intros s3. apply Tend_sub; auto. simpl. intros; lia. }
-      { intros i Hi. unfold K'. right. lia. }
+      assert (HKJ : forall i, kept sc' ceJ i -> K' i).
       { intros i Hi. unfold K'.
         destruct Hi as [(x & y & Hx & Hi)|[(l0 & y & Hx & Hi)|Hg]]; [|simpl in Hx; discriminate|left; apply HK2, Hkc; exact Hg].
-        unfold ceF in Hx. cbn [ce_env] in Hx. unfold param_env in Hx. rewrite (no_pv_params _ 0 Hpv) in Hx. cbn [pv_env app] in Hx.
-        assert (Hy : (exists j, y = (idf, S j) /\ j < S (length ps')) \/ ((In (x, CV y) cel' \/ In (x, CP y) cel') /\ fst y < idf)).
+        unfold ceJ in Hx. cbn [ce_env] in Hx.
+        assert (Hy : (exists j, y = (idf, S j) /\ j < nps) \/ ((In (x, CV y) cel' \/ In (x, CP y) cel') /\ fst y < idf)).
         { destruct Hx as [Hx|Hx]; apply in_app_or in Hx; destruct Hx as [Hx|Hx].
           - exfalso. exact (proj1 (pf_env_In idf (p0 :: ps') 0 x y) Hx).
           - right. split; [auto|]. exact (ce_lt_var {| ce_env := cel'; ce_lbls := []; ce_ghost := fun _ => False |} idf x y Hclt (or_introl Hx)).
-          - left. destruct (proj2 (pf_env_In idf (p0 :: ps') 0 x y) Hx) as (j & -> & Hj). exists j. simpl in Hj. split; [auto|lia].
+          - left. destruct (proj2 (pf_env_In idf (p0 :: ps') 0 x y) Hx) as (j & -> & Hj). exists j. simpl in Hj. unfold nps. split; [auto|lia].
           - right. split; [auto|]. exact (ce_lt_var {| ce_env := cel'; ce_lbls := []; ce_ghost := fun _ => False |} idf x y Hclt (or_intror Hx)). }
         destruct Hy as [(j & -> & Hj)|[Hx' Hlt']].
         - rewrite Hcur' in Hi. inversion Hi; subst i. right. lia.
         - rewrite (index_of_pushed _ _ _ _ Hps) in Hi by lia. left. apply HK2. left. exists x, y. split; [|exact Hi].
           rewrite Epre. destruct Hx' as [Hx'|Hx']; [left|right]; apply suffix_In; exact Hx'. }
+      set (cx := ctx_of sc' pr st fk (o + S nps + 0) (o + nvb) (o + nvb) (o + nvb) K' K0 ceJ n0 (ctr g1)).
+      refine (G_sub nt code cx
+                (ctx_of sc' pr st fk (o + 0) (o + nvb) (o + nvb) (o + nvb) K' K0 ceF n0 (ctr g1)) _ _
+                eq_refl eq_refl eq_refl eq_refl _ (fun _ _ _ H => H) (fun _ _ H => H) (le_n _) (le_n _) (le_n _) _ _ _
+                (pv_loop sc cur base Hfr ce rho (base + nv) v n0 sc' idf o Hfr' Hps ltac:(lia) HGlt (a0 :: args') pcs nps HFa' IHargs Hnps
+                   z m body ceF pcb (S nps + length pvs) cb nvb s0 s1 st IHb HcbF Hatcb Aret eq_refl eq_refl
+                   pvs 0 ceJ rhoF pcx cx P vsB n (o + nvb) g1 _ eq_refl eq_refl _ _ Ppv _ HEJ HvB _ HEcB
+                   eq_refl eq_refl eq_refl eq_refl eq_refl eq_refl (le_n _) (le_n _) _ Hn (le_n _) _ _ _ _ HKJ _ _ _ _)).
+      { simpl. intros; lia. }
+      { intros s3. apply Tend_sub; auto. simpl. intros; lia. }
+      { unfold ceF, ceJ, param_env. cbn [ce_env]. rewrite <- app_assoc. reflexivity. }
+      { lia. }
+      { intros i x Hin. apply pv_params_ge in Hin. unfold nps. simpl in Hin. lia. }
+      { unfold pcb, pcx. rewrite Plen. unfold nps. lia. }
+      { intros i q Hq. replace (o + S i) with (o + 1 + i) by lia. apply HB1. unfold clos. rewrite nth_error_map, Hq. reflexivity. }
+      { lia. }
+      { simpl. intros; lia. }
+      { simpl. intros; lia. }
+      { intros i Hi. unfold K'. right. lia. }
+      { intros i Hi. unfold K'. left. apply HK2, Hkc. exact Hi. }
       { intros i Hi. unfold K'. left. apply HK0. exact Hi. }
-      { split.
-        - intros a b m0 x m' x' Hp C Hm0. eapply S1; [exact Hp| |exact Hm0]. eapply chg_mono; [|exact C]. simpl; intros; lia.
-        - intros a b m0 x m' x' Hp C Hm0. eapply S2; [exact Hp|exact C|exact Hm0]. }
+      { intros a b m0 x m' x' Hp C Hm0. eapply S1; [exact Hp| |exact Hm0]. eapply chg_mono; [|exact C]. simpl; intros; lia. }
+      { intros a b m0 x m' x' Hp C Hm0. eapply S2; [exact Hp|exact C|exact Hm0]. }
       { eapply S1; [exact HP| |unfold g1, g'; cl]. simpl. split; [pose proof (grow_len_le vs1 (o + nvb)); fold vs' in H; lia|]. intros i Hi.
         assert (Hi1 : i <> base + nv /\ i < o) by lia.
         rewrite Hagree by lia. symmetry. apply UO. lia. }
@@ -2591,7 +2617,7 @@ Proof.
       - rewrite andb_false_r in Ef. auto. }
     rewrite Ea0 in Ef.
     destruct (envOKl_par _ _ _ _ _ _ _ _ Hv Ef) as (a & rho_a & rho'' & addr & pa & idx & cel_a & cur_a & base_a & lim_a & Ga & Hlf & Hia & Hal & Hna &
-              (ida & nva & cba & s0a & s1a & Hsca & Hcba & Hcodea & Hclta & _) & Htop & Hla & Hva & Hka).
+              (ida & nva & cba & s0a & s1a & Hsca & Hcba & Hcodea & Hclta) & Htop & Hla & Hva & Hka).
     cbn [Den.den1]. rewrite Ea0, Hlf.
     case_eq fu; [intros Efu|intros m Efu].
     { cbn [call_of fst snd]. apply G_fuel. }
@@ -2712,7 +2738,7 @@ Proof.
         simpl in Hat, Hpc. uncons Hat A0.
         eapply G_pre; [eapply steps_step; [eapply st_load; [exact A0|apply Hcur|exact Hv]|apply steps_refl]|apply chg_refl|cl|].
         assert (Ecf : comp (QCallF f []) ce cur (S p) nvl sn = Some ([Icallf pf], nvl, sn)) by (simpl; rewrite Hlf; reflexivity).
-        apply (impl_body fu (QCallF f []) (impl_callf f []) sc cur base Hfr ce (S p) nvl sn [Icallf pf] nvl sn Ecf Hat cx rho v vs n o g P); auto; try lia.
+        apply (impl_body fu (QCallF f []) (impl_callf f [] (Forall_nil _)) sc cur base Hfr ce (S p) nvl sn [Icallf pf] nvl sn Ecf Hat cx rho v vs n o g P); auto; try lia.
         -- rewrite Hpc. simpl. lia.
         -- intros i [Hi|Hi]; [lia|auto].
         -- intros a b m x m' x' Hp C Hm. eapply HP1; [exact Hp| |exact Hm]. eapply chg_mono; [|exact C]. simpl; intros; lia.
@@ -2815,7 +2841,7 @@ Proof.
   - apply impl_iter; auto. - apply impl_index; auto. - apply impl_if; auto. - apply impl_alt; auto.
   - apply impl_try; auto. - apply impl_array; auto. - apply impl_reduce; auto. - apply impl_foreach; auto.
   - apply impl_label; auto. - apply impl_break. - apply impl_bind; auto. - apply impl_var. - apply impl_call0.
-  - apply impl_binop; auto. - apply impl_def; auto. - apply impl_callf.
+  - apply impl_binop; auto. - apply impl_def; auto. - apply impl_callf; auto.
 Qed.
 
 End C.
